@@ -274,6 +274,14 @@ def items(tier):
             for K in ks:
                 out.append((i, 'M', W, ta, K))
                 i += 1
+    # one run-time operand and two compile-time constants (re-association across a wrap)
+    from ..gen import chain
+    for W in (Ws if tier == 'thorough' else [2, 3]):
+        for n, (form, o1, k1) in enumerate(chain.chain_items(W, tier)):
+            if tier == 'quick' and W == 3 and n % 4 != 1:
+                continue
+            out.append((i, 'CH', W, form, o1, k1))
+            i += 1
     # unary / casts: every 16-bit value, sharded
     if tier == 'thorough':
         step = 1024
@@ -394,6 +402,17 @@ def run_item(item, tier):
         run_program(st, src, argvs, [W], f'run-time {ta} operand against the constant {K}')
         st.add('distinct_nontrivial', len(argvs))
         st.sample({'family': 'mixed', 'operand_type': ta, 'constant': K, 'W': W, 'operand_values': len(argvs)})
+    elif item[1] == 'CH':
+        from ..cases import run_program
+        from ..gen import chain
+        _, _, W, form, o1, k1 = item
+        src = chain.chain_program(form, o1, k1, W)
+        vals = chain.xs(W)
+        if tier == 'quick':
+            vals = vals[::2] + [v for v in vals[-3:] if v not in vals[::2]]
+        run_program(st, src, [[str(v)] for v in vals], [W], f'CHAIN[{chain.FORMS[form]}; op1 {o1}; K1 {k1}; every op2 x K2]')
+        st.add('distinct_nontrivial', len(vals))
+        st.sample({'family': 'CHAIN', 'shape': chain.FORMS[form], 'op1': o1, 'K1': k1, 'W': W, 'x_values': vals})
     elif item[1] == 'L':
         _, _, W, a = item
         src = literal_program(a, W)
@@ -483,6 +502,9 @@ def coverage(total, tier):
         'mixed': 'one run-time operand (int or byte, whole grid) against a compile-time constant written as literal, const variable and parenthesised literal ('
                  + ('26 constants per word size' if tier == 'thorough' else '17 constants at W=2, 6 at W=3,4') + ' incl. min, max, +-255/256/257/300, 2^(n-2)): + - * / % and all comparisons in both orders, as value, branch and '
                  '!truth_is_defeat argument; op= on byte local / element / global with the constant and with a run-time value narrowed on the spot; oracle: reference interpreter',
+        'chains': 'one run-time int and two compile-time constants in five shapes (x op1 K1 op2 K2; K1 op1 x op2 K2; K2 op2 (x op1 K1); (K1 op1 x) op2 K2; the same through const variables), op1 in + - * / %, op2 in '
+                  '+ - * / % and the six comparisons, K1 ' + ('and K2 over 19 constants' if tier == 'thorough' else 'over 8 and K2 over 19 constants') + ' on both sides of every wrap (1, 2, 3, 7, 10, +-1, +-2, 255..257, 300, -256, 2^(n/2), 2^(n/2)+1, 2^(n-2), max, max-1, min, min+1), x over '
+                  + ('23' if tier == 'thorough' else '13') + ' boundary values; oracle: reference interpreter (re-association of the constants is only valid when nothing wraps)',
         'literals': 'the same operators with both operands written as literals (13 values per word size incl. max, max+1, 2^n-1, 2^n, 2^n+1): all 169 pairs',
         'unary': ('all 65536 values' if tier == 'thorough' else '6 windows of 32 values around the boundaries') + ' at W=2 for - , is byte, is bool, not, *, /, %, <',
     })
